@@ -660,6 +660,24 @@ Qed.
 Definition KnownClass (k : kind) (fs : list field) : Prop :=
   (k = Response /\ has ":status" fs = false) \/ (k = Trailers /\ existsb is_pseudo fs = true).
 
+(* boolean form, shared with the oracle of lib/props/parts/httprules.py *)
+Definition known_class_b (k : kind) (fs : list field) : bool :=
+  match k with
+  | Response => negb (has ":status" fs)
+  | Trailers => existsb is_pseudo fs
+  | _ => false
+  end.
+
+Lemma known_class_b_iff k fs : known_class_b k fs = true <-> KnownClass k fs.
+Proof.
+  unfold known_class_b, KnownClass. destruct k; split; intros H;
+    try discriminate; try (destruct H as [[X _]|[X _]]; discriminate).
+  - left. split; [reflexivity|]. apply negb_true_iff in H. exact H.
+  - destruct H as [[_ X]|[X _]]; [|discriminate]. rewrite X. reflexivity.
+  - right. split; [reflexivity|exact H].
+  - destruct H as [[X _]|[_ X]]; [discriminate|exact X].
+Qed.
+
 Lemma head_server_kind ext max cl eos v fs k :
   delivers k (model_head Server ext max cl eos v fs) = true -> k = Request.
 Proof.
